@@ -106,6 +106,12 @@ class BadReprBadStr(object):
         raise _Unprintable()
 
 
+class BadReprSelf(object):
+    """repr() fails with an exception that carries the object itself (raise ValueError(self)): describing the ERROR fails too"""
+    def __repr__(self):
+        raise ValueError(self)
+
+
 class BadReprHTTP(object):
     """repr() fails with an exception that happens to be an HTTP error class"""
     def __repr__(self):
@@ -138,6 +144,8 @@ def make_value(kind, marker):
         return BadReprQuoting(marker)
     if kind == 'badrepr-surrogate':
         return BadReprSurrogate()
+    if kind == 'badrepr-self':
+        return BadReprSelf()
     if kind == 'badrepr-badstr':
         return BadReprBadStr()
     if kind in EXACT:
@@ -200,7 +208,7 @@ class C18(Check):
             for n in names[:nmax]:
                 kind = rng.choice(VALUE_KINDS)
                 if n in PLAIN_NAMES and rng.random() < 0.15:
-                    kind = rng.choice(['badrepr', 'badrepr-http', 'badrepr-quoting', 'badrepr-surrogate', 'badrepr-badstr'])
+                    kind = rng.choice(['badrepr', 'badrepr-http', 'badrepr-quoting', 'badrepr-surrogate', 'badrepr-badstr', 'badrepr-self', 'badrepr-self'])
                 elif n in SECRET_NAMES and rng.random() < 0.2:
                     # a secret whose repr() would fail: nobody has any business calling it
                     kind = rng.choice(['badrepr', 'badrepr-quoting', 'badrepr-quoting'])
@@ -208,7 +216,7 @@ class C18(Check):
             return out
         return {'resources': resources(5), 'inner_resources': resources(3),
                 'routes': [rng.choice(ROUTE_KINDS) for _ in range(rng.randint(0, 4))],
-                'renders': rng.choice(['none', 'basic', 'callable']),
+                'renders': rng.choice(['none', 'basic', 'callable', 'pathlike']),
                 'cookie': rng.choice([False, False, True, 'str']), 'extra_mws': rng.random() < 0.4,
                 'host_mws': rng.sample(sorted(HOST_MWS), rng.randint(0, 3)),
                 'prefix': rng.choice(['/_meta/', '/m', '/deep/er/meta/', '/']), 'depth': rng.choice([1, 1, 2]),
@@ -282,8 +290,12 @@ class C18(Check):
             # (defaulted parameters nobody provides: their defaults are arbitrary Python objects)
             spec = {'req': ['request'], 'opt': ['page_size'] if i % 2 else [], 'kwreq': [], 'kwopt': ['mode'] if i % 3 == 0 else [], 'kind': kind}
             ep = wrap_kind(spec, 'EP%d' % i, 'resp')
-            render = {'none': None, 'basic': render_basic, 'callable': ReprCallableRender()}[cfg['renders']]
+            render = {'none': None, 'basic': render_basic, 'callable': ReprCallableRender(), 'pathlike': None}[cfg['renders']]
             routes.append(Route('/r%d/<x>' % i, ep, render))
+        if cfg['renders'] == 'pathlike':
+            # the host names its templates by path OBJECTS and has a render factory making renderers of them
+            import pathlib
+            routes.append(Route('/tmpl/<x>', lambda x: {'x': x}, pathlib.PurePosixPath('pages/item.html')))
         if cfg.get('exotic_defaults'):
             routes.append(('/exotic/<x>', ep_exotic_defaults))
         if cfg.get('static'):
@@ -307,16 +319,19 @@ class C18(Check):
                 mws.append(ContextProcessor(required=sorted(names)))
                 self._ctx_required = sorted(names)
         meta = MetaApplication()
+        rf_kw = {}
+        if cfg['renders'] == 'pathlike':
+            rf_kw['render_factory'] = lambda arg: (lambda context: Response('rendered with %s' % (arg,)))
         prefix = cfg['prefix']
         inner_res = res_dict(cfg['inner_resources'], 'inner')
         outer_res = res_dict(cfg['resources'], 'outer')
         if cfg['depth'] == 1:
             if cfg.get('embedded'):
                 routes.append(('/emb', Application([('/e', lambda: Response('e'))], resources=inner_res)))
-            app = Application(routes + [(prefix, meta)], resources=outer_res, middlewares=mws)
+            app = Application(routes + [(prefix, meta)], resources=outer_res, middlewares=mws, **rf_kw)
             base = prefix
         else:
-            mid = Application(routes + [(prefix, meta)], resources=inner_res)
+            mid = Application(routes + [(prefix, meta)], resources=inner_res, **rf_kw)
             app = Application([('/host1', mid)], resources=outer_res, middlewares=mws)
             base = '/host1' + (prefix if prefix != '/' else '/')
         for (level, name), (kind, marker) in yield_info.items():
@@ -422,7 +437,7 @@ class C18(Check):
                 # the page must SAY that the section could not be computed: the error is reported inline
                 kinds = set(kind for name, (kind, _) in serving.items() if kind.startswith('badrepr') and 'secret' not in name)
                 signs = {'badrepr': 'repr failed', 'badrepr-http': 'ServiceUnavailable', 'badrepr-quoting': 'invalid literal',
-                         'badrepr-surrogate': 'No such file', 'badrepr-badstr': '_Unprintable'}
+                         'badrepr-surrogate': 'No such file', 'badrepr-badstr': '_Unprintable', 'badrepr-self': 'ValueError'}
                 if not any(signs[k] in body for k in kinds if k in signs):
                     return ('failed-section-not-reported', 'the resources section could not be computed (%s) and the page does not say so'
                             % sorted(kinds))
